@@ -1,4 +1,10 @@
 mod c01;
+mod c03;
+mod asis;
+mod c10;
+mod c11;
+mod ordu;
+mod c13;
 mod denote;
 mod universe;
 
@@ -13,6 +19,31 @@ fn main() {
         "c01" => {
             let rep = Report::new("C01", "exploration");
             let cov = c01::run(&rep);
+            rep.finish(cov)
+        }
+        "c03" => {
+            let rep = Report::new("C03", "exploration");
+            let cov = c03::run(&rep);
+            rep.finish(cov)
+        }
+        "c10" => {
+            let rep = Report::new("C10", "exploration");
+            let cov = c10::run(&rep);
+            rep.finish(cov)
+        }
+        "c13" => {
+            let rep = Report::new("C13", "exploration");
+            let cov = c13::run(&rep);
+            rep.finish(cov)
+        }
+        "c11" => {
+            let rep = Report::new("C11", "exploration");
+            let cov = c11::run_c11(&rep);
+            rep.finish(cov)
+        }
+        "c12" => {
+            let rep = Report::new("C12", "exploration");
+            let cov = c11::run_c12(&rep);
             rep.finish(cov)
         }
         _ => {
